@@ -32,7 +32,68 @@ def run_c09(ctx):
     return [run_olh(ctx, 'kv', args)]
 
 
+def twin_args(ctx, quick, thorough):
+    return quick if ctx['tier'] == 'quick' else thorough
+
+
+def run_c01(ctx):
+    return [run_olh(ctx, 'twin', twin_args(ctx, ['-histories', '40', '-blocks', '16', '-maxtxs', '8'], ['-histories', '600', '-blocks', '30', '-maxtxs', '10'])),
+            run_olh(ctx, 'shell', twin_args(ctx, ['-histories', '25', '-blocks', '12'], ['-histories', '300', '-blocks', '24']))]
+
+
+def run_c05(ctx):
+    return [run_olh(ctx, 'replay', twin_args(ctx, ['-histories', '60', '-blocks', '16', '-maxtxs', '8'], ['-histories', '800', '-blocks', '30', '-maxtxs', '10'])),
+            run_olh(ctx, 'shell', twin_args(ctx, ['-histories', '25', '-blocks', '12'], ['-histories', '300', '-blocks', '24']))]
+
+
+def run_c06(ctx):
+    return [run_olh(ctx, 'dropfailed', twin_args(ctx, ['-histories', '40', '-blocks', '16', '-maxtxs', '8'], ['-histories', '600', '-blocks', '30', '-maxtxs', '10'])),
+            run_olh(ctx, 'shell', twin_args(ctx, ['-histories', '25', '-blocks', '12'], ['-histories', '300', '-blocks', '24']))]
+
+
+def run_c07(ctx):
+    return [run_olh(ctx, 'inject', twin_args(ctx, ['-histories', '50', '-blocks', '18', '-maxtxs', '8'], ['-histories', '800', '-blocks', '30', '-maxtxs', '10'])),
+            run_olh(ctx, 'shell', twin_args(ctx, ['-histories', '25', '-blocks', '12'], ['-histories', '300', '-blocks', '24']))]
+
+
+def run_c08(ctx):
+    return [run_olh(ctx, 'crash', twin_args(ctx, ['-histories', '30', '-blocks', '14', '-maxtxs', '8'], ['-histories', '400', '-blocks', '30', '-maxtxs', '10'])),
+            run_olh(ctx, 'shell', twin_args(ctx, ['-histories', '25', '-blocks', '12'], ['-histories', '300', '-blocks', '24']))]
+
+
+SHELL_ASSUME = [
+    'handlers are abstracted as arbitrary interaction-tree programs; the side conditions of the generic theorems (AllAimed, NoVset, EnvFree, GasBlind, VolDerived) are discharged for the real code by the regenerated fact tables (T3, `decide`) where a static fact exists, and otherwise exercised dynamically by the twin-replica engines',
+    'the shell model is tied to app/controller.go by the `shell` engine: every ABCI call of generated histories (with CheckTx calls and restarts mixed in) is re-run by the Lean model with handlers abstracted to their observed writes; block-cache digests, results, index short-circuits, commit write logs (replayed into IAVL against the real application hash) and Info after restarts must agree',
+    'ABCI calls are serialised (Tendermint local client mutex); goroutine interleavings inside one call do not occur on the modelled paths',
+]
+
 PROPS = {
+    'C01': dict(
+        lean_modules=['OLP.Props.C01', 'OLP.Props.C01Facts'], namespaces=['OLP.Props.C01'],
+        required_theorems=['execBlocks_env_independent', 'runCalls_env_independent', 'block_log_is_cache_in_first_write_order', 'sortKeys_perm_invariant', 'no_unsorted_writing_range', 'map_ranges_as_classified', 'env_uses_as_classified'],
+        run=run_c01, replay=replay_olh('twin'), level='proof', assumptions=SHELL_ASSUME,
+        model_limits='environment independence of the 39 handlers themselves rests on the extracted envUses/mapRanges tables plus twin replicas (identity, role, witness flag differ; Go map order differs per run), not on per-handler proofs; IAVL determinism is trusted (validated under C09)'),
+    'C05': dict(
+        lean_modules=['OLP.Props.C05', 'OLP.Props.C05Facts'], namespaces=['OLP.Props.C05'],
+        required_theorems=['replay_deliver_noop', 'replay_check_rejected', 'executed_tx_indexed', 'index_is_stable', 'replay_noop_in_later_block', 'replay_any_encoding_noop_partial', 'reencoded_replay_executes_twice', 'canonical_guard_present'],
+        run=run_c05, replay=replay_olh('replay'), level='proof',
+        assumptions=SHELL_ASSUME + ['SHA-256 of the received bytes is collision free (the hash is a parameter of the theorems)', 'the Tendermint kv tx indexer is trusted; the harness feeds it after every block as the indexer service does'],
+        model_limits='OLVM transactions additionally rely on the account nonce (only `stNonce > msgNonce` is rejected, S12): covered when the fork family is added to this engine; signature malleability is excluded by the key handlers (ed25519 deterministic, secp256k1 low-S rule of Tendermint)'),
+    'C06': dict(
+        lean_modules=['OLP.Props.C06', 'OLP.Props.C06Facts'], namespaces=['OLP.Props.C06'],
+        required_theorems=['failed_tx_keeps_store', 'failed_tx_noop', 'remove_failed_deliverAll', 'remove_failed_same_block', 'deliverer_discipline'],
+        run=run_c06, replay=replay_olh('dropfailed'), level='proof', assumptions=SHELL_ASSUME,
+        model_limits='the EVM object cache / journal are volatile cells of the generic model; their rollback on failure is covered by C16/C17 and by the dropfailed twin (fork family)'),
+    'C07': dict(
+        lean_modules=['OLP.Props.C07', 'OLP.Props.C07Facts'], namespaces=['OLP.Props.C07'],
+        required_theorems=['checkTx_keeps_store', 'checktx_isolation', 'unaimed_hook_breaks_isolation', 'check_vset_breaks_isolation', 'begin_hooks_aimed', 'end_hooks_aimed', 'checker_discipline'],
+        run=run_c07, replay=replay_olh('inject'), level='proof', assumptions=SHELL_ASSUME,
+        model_limits='premise CheckNoVset is false of the code for the governance update functions (S13, see known findings / DESIGN); the theorem is conditional on it and the inject twin searches for a schedule'),
+    'C08': dict(
+        lean_modules=['OLP.Props.C08', 'OLP.Props.C08Facts'], namespaces=['OLP.Props.C08'],
+        required_theorems=['info_after_crash', 'crash_midblock_eq_crash_before', 'replay_converges', 'history_with_crashes_converges', 'prepare_reloads_option_copies'],
+        run=run_c08, replay=replay_olh('crash'), level='proof', assumptions=SHELL_ASSUME + ['a crash is a process death with the OS page cache intact: the data directory is byte-copied at the crash point while the application is still open and the copy is reopened; power-loss durability of goleveldb/IAVL batches is trusted'],
+        model_limits='premise VolDerived (volatile memory at block boundaries is a function of the persisted tree) is an application-level discipline: checked statically for the option copies (Prepare vs setupState) and dynamically by the crash twin for everything else'),
     'C09': dict(
         lean_modules=['OLP.Props.C09'],
         namespaces=['OLP.Props.C09'],
